@@ -119,7 +119,9 @@ static void *vpd_calloc(size_t n, size_t sz)
 	} else if (n == 1 && sz == sizeof(struct evdns_cache)) {
 		static const struct evdns_cache z; q = malloc(sizeof(struct evdns_cache)); __CPROVER_assume(q != NULL); *(struct evdns_cache *)q = z;
 	} else if (n == 1 && sz >= sizeof(struct hosts_entry) && sz <= sizeof(struct hosts_entry) + VPD_TEXT_MAX) {
-		static const struct vpd_he_obj z; q = malloc(sizeof(struct vpd_he_obj)); __CPROVER_assume(q != NULL); *(struct vpd_he_obj *)q = z; vpd_track(q, sz);
+		/* (untyped literal-size block: the name is copied across hostname[1], the tail padding and the text area,
+		 *  which turns every byte of a typed object into a byte_update of the whole structure: 15 M variables) */
+		q = calloc(1, sizeof(struct hosts_entry) + VPD_TEXT_MAX); __CPROVER_assume(q != NULL); vpd_track(q, sz);
 	} else if (n == 1 && sz == sizeof(struct request *)) {          /* req_heads, max-inflight <= 5 */
 		q = malloc(1 * sizeof(struct request *)); __CPROVER_assume(q != NULL); ((struct request **)q)[0] = NULL;
 	} else if (n == 13 && sz == sizeof(struct request *)) {         /* req_heads of evdns_base_new (max-inflight 64) */
